@@ -1,16 +1,14 @@
-use crate::forwarder::TcpConnector;
 use crate::http_codec::HttpCodec;
-use crate::net_utils::TcpDestination;
 use crate::pipe::DuplexPipe;
 use crate::tcp_forwarder::TcpForwarder;
 use crate::tls_demultiplexer::Protocol;
-use crate::{core, forwarder, http1_codec, http_codec, log_id, log_utils, pipe, tunnel};
+use crate::{core, http1_codec, http_codec, log_id, log_utils, pipe};
 use bytes::{BufMut, BytesMut};
 use std::io;
 use std::io::ErrorKind;
-use std::net::Ipv4Addr;
 use std::sync::atomic::{AtomicUsize, Ordering};
 use std::sync::Arc;
+use tokio::net::TcpStream;
 
 static ORIGINAL_PROTOCOL_HEADER: http::HeaderName =
     http::HeaderName::from_static("x-original-protocol");
@@ -104,30 +102,21 @@ async fn handle_stream(
     context: Arc<core::Context>,
     stream: Box<dyn http_codec::Stream>,
     protocol: Protocol,
-    sni: String,
+    _sni: String,
     log_id: &log_utils::IdChain<u64>,
 ) -> io::Result<()> {
     let (request, respond) = stream.split();
     log_id!(trace, log_id, "Received request: {:?}", request.request());
 
-    let forwarder = Box::new(TcpForwarder::new(context.clone()));
     let settings = context.settings.reverse_proxy.as_ref().unwrap();
-    let (mut server_source, mut server_sink) = forwarder
-        .connect(
-            log_id.clone(),
-            forwarder::TcpConnectionMeta {
-                client_address: Ipv4Addr::UNSPECIFIED.into(),
-                destination: TcpDestination::Address(settings.server_address),
-                auth: None,
-                tls_domain: sni,
-                user_agent: None,
-            },
-        )
-        .await
-        .map_err(|e| match e {
-            tunnel::ConnectionError::Io(e) => e,
-            _ => io::Error::new(ErrorKind::Other, format!("{}", e)),
-        })?;
+    // The origin is chosen by the operator, not by a client: connect to it directly. The private
+    // network policy of `TcpForwarder::connect` is about client-supplied destinations and would
+    // refuse a loopback or private origin.
+    let metrics_guard = context.metrics.clone().outbound_tcp_socket_counter();
+    let server_stream = TcpStream::connect(settings.server_address).await?;
+    server_stream.set_nodelay(true)?;
+    let (mut server_source, mut server_sink) =
+        TcpForwarder::pipe_from_stream(server_stream, log_id.clone(), metrics_guard);
 
     let mut request_headers = request.clone_request();
     let original_version = request_headers.version;
